@@ -461,3 +461,30 @@ func init() {
 	externals["internal/abi.NoEscape"] = func(fr *frame, args []value) value { return args[0] }
 	externals["internal/abi.Escape[*strings.Builder]"] = func(fr *frame, args []value) value { return args[0] }
 }
+
+func init() {
+	// sort.Slice uses reflectlite; same contract by insertion sort over the interpreter's slice
+	sortSlice := func(fr *frame, args []value) value {
+		x, ok := args[0].(iface)
+		if !ok {
+			return notHandled
+		}
+		s, ok := x.v.([]value)
+		if !ok {
+			panic(pathAbort{"sort.Slice on a non-slice"})
+		}
+		less := args[1]
+		for i := 1; i < len(s); i++ {
+			for j := i; j > 0; j-- {
+				r := call(fr.i, fr, 0, less, []value{j, j - 1})
+				if !concBool(r) {
+					break
+				}
+				s[j], s[j-1] = s[j-1], s[j]
+			}
+		}
+		return nil
+	}
+	externals["sort.Slice"] = sortSlice
+	externals["sort.SliceStable"] = sortSlice
+}
